@@ -153,9 +153,20 @@ type BCESite struct {
 // BCEReport runs the compiler's bounds-check report for the given short package paths.
 func (p *Prog) BCEReport(pkgs []string) ([]BCESite, error) {
 	var out []BCESite
+	var overlayArg []string
+	if len(p.Overlay) > 0 {
+		js, cleanup, err := writeOverlay(p.Overlay)
+		if err != nil {
+			return nil, err
+		}
+		defer cleanup()
+		overlayArg = []string{"-overlay", js}
+	}
 	for _, pk := range pkgs {
 		full := ModPrefix + pk
-		cmd := exec.Command("go", "build", "-gcflags="+full+"=-l -d=ssa/check_bce/debug=1", "./"+pk+"/")
+		args := append([]string{"build"}, overlayArg...)
+		args = append(args, "-gcflags="+full+"=-l -d=ssa/check_bce/debug=1", "./"+pk+"/")
+		cmd := exec.Command("go", args...)
 		cmd.Dir = p.Repo
 		cmd.Env = p.Env
 		var buf bytes.Buffer
